@@ -8,7 +8,7 @@ from manifest_text import TEXT, NOT_YET
 ALL = ["C%02d" % i for i in range(1, 20)]
 checks = []
 for pid in ALL:
-    if pid not in PROPS:
+    if pid not in PROPS or pid not in TEXT:
         continue
     t = TEXT[pid]
     checks.append({
@@ -22,7 +22,7 @@ for pid in ALL:
         "level_note": t["note"],
         "technique": t["technique"],
     })
-na = [{"property_id": pid, "reason": NOT_YET.get(pid, "check not built yet in this round; planned (DESIGN.md section 8)")} for pid in ALL if pid not in PROPS]
+na = [{"property_id": pid, "reason": NOT_YET.get(pid, "check not built yet in this round; planned (DESIGN.md section 8)")} for pid in ALL if pid not in PROPS or pid not in TEXT]
 m = {
     "version": 1,
     "setup_cmd": "./setup",
